@@ -14,7 +14,9 @@ MODELS = ["OpaCase"]
 TARGETS = ["Gen/T5opa.vo"]
 RULE = ("time-ordered multivariate series: white noise and red-noise mixtures (independent AR(1) series with distinct, known coefficients "
         "mixed by a random matrix, optionally plus white noise), n 12..48 samples, 2..7 features, tau_max 1..n/3, n_pca_modes 2..rank, "
-        "n_modes 1..n_pca_modes, center/standardize/use_coslat flags, 1-D and lat-lon layouts, solver='full'; non-trivial: q >= 2, "
+        "n_modes 1..n_pca_modes, center/standardize/use_coslat flags, 1-D and lat-lon layouts, solver='full'; in 30% of the cases the model object "
+        "was fitted on unrelated data of the same structure and queried through every accessor, transform, compute() and serialize() before the "
+        "fit under test; non-trivial: q >= 2, "
         "tau_max >= 1 and the implementation returned; distinct by input hash")
 PARTIAL = ["the hypotheses `mT Ci = Ci` and `whiten_ok` of C19_decorrelation_is_trapezoid / C19_descending / C19_optimal_series are discharged for the "
            "source's own whitening matrix by C19_source_whitening_is_symmetric / C19_source_whitening_whitens (after the repair 599b03e; before it "
@@ -124,7 +126,9 @@ def make_cfg(rng, i):
     tm = int(rng.integers(1, n // 3 + 1))
     cfg = dict(kind=kind, n=n, p=p, q=q, k=k, tau_max=tm, center=bool(rng.random() < 0.8), standardize=bool(rng.random() < 0.3) and kind != "wave",
                use_coslat=use_coslat, layout=layout)
-    return cfg, gen_data(rng, kind, n, p)
+    X = gen_data(rng, kind, n, p)
+    cfg["history"] = int(rng.integers(1, 1 << 30)) if rng.random() < 0.3 else 0
+    return cfg, X
 
 
 def build_da(cfg, X):
@@ -143,6 +147,12 @@ def run_impl(cfg, X):
     da = build_da(cfg, X)
     m = xe.single.OPA(n_modes=cfg["k"], tau_max=cfg["tau_max"], n_pca_modes=cfg["q"], center=cfg["center"],
                       standardize=cfg["standardize"], use_coslat=cfg["use_coslat"], solver="full")
+    if cfg.get("history"):
+        # the same object was fitted on other data and used before: every answer below must be that of the last fit
+        rngh = np.random.default_rng(cfg["history"])
+        other = C.other_like(rngh, da)
+        m.fit(other, "time")
+        C.exercise(m, other)
     m.fit(da, "time")
     d = m.data
     sn, fn = m.sample_name, m.feature_name
@@ -363,7 +373,8 @@ def one(ctx, cfg, X, rng, recs=None, svd=True):
     tag = "%s/%s%s%s/%s" % (cfg["kind"], "c" if cfg["center"] else "-", "s" if cfg["standardize"] else "-", "w" if cfg["use_coslat"] else "-",
                             "k=q" if cfg["k"] == cfg["q"] else "k<q")
     ctx.case(("c19", cfg["kind"], cfg["n"], cfg["p"], cfg["q"], cfg["k"], cfg["tau_max"], cfg["center"], cfg["standardize"], cfg["use_coslat"],
-              cfg["layout"], C.canon_hash(np.asarray(X).round(12).tolist())), nontrivial=cfg["q"] >= 2 and cfg["tau_max"] >= 1, tag=tag,
+              cfg["layout"], bool(cfg.get("history")), C.canon_hash(np.asarray(X).round(12).tolist())), nontrivial=cfg["q"] >= 2 and cfg["tau_max"] >= 1,
+             tag=tag + ("/refit" if cfg.get("history") else ""),
              sample=dict(kind=cfg["kind"], shape=[cfg["n"], cfg["p"]], tau_max=cfg["tau_max"], n_pca_modes=cfg["q"], n_modes=cfg["k"],
                          center=cfg["center"], standardize=cfg["standardize"], use_coslat=cfg["use_coslat"], layout=cfg["layout"]))
     try:
